@@ -56,8 +56,10 @@ def child_label(tag: str, idx: Any) -> z3.ExprRef:
 
 
 class Loop:
-    def __init__(self, inv, facts=None, modifies=None, ghosts=None, entry=None, back=None):
+    def __init__(self, inv, facts=None, modifies=None, ghosts=None, entry=None, back=None, merge=False, keep=()):
         self.inv = inv
+        self.merge = merge  # explore what follows the loop head once for all paths into the loop (engine._loop)
+        self.keep = tuple(keep)  # locals (besides self and those the loop assigns) that stay readable after a merged head
         if facts:
             self.facts = facts
         if modifies:
